@@ -64,8 +64,13 @@ func fillSlots(t string, slot int, stmt string) string {
 	return t
 }
 
+var emitMultiN int
+
 func emitMulti(e *emitter, scripts []scriptSrc, entry string, pt pointSpec, sigK int, hasSig bool, gen, key string, extra map[string]any) map[string]any {
-	out := runV1(runCase{Scripts: scripts, Entry: entry, Point: pt, SigK: sigK, HasSig: hasSig})
+	// every third case validates the loaded scripts once more before running (a host may do that at any
+	// time: the scripts stay linked)
+	emitMultiN++
+	out := runV1(runCase{Scripts: scripts, Entry: entry, Point: pt, SigK: sigK, HasSig: hasSig, Recheck: emitMultiN%3 == 0})
 	out["gen"] = gen
 	out["key"] = key
 	out["strict"] = true
